@@ -11,7 +11,7 @@ from harness.core import Check, Outcome, SubCheck
 def fifo_case(draw, broker):
     prio = draw(st.sampled_from([0, 5, 5, 9]))
     foreign = draw(st.booleans())
-    mode = draw(st.sampled_from(["drain", "drain", "interleaved", "rejects", "foreign-run"]))
+    mode = draw(st.sampled_from(["drain", "drain", "interleaved", "rejects", "foreign-run", "pause"]))
     ops = []
     # other priority levels in the same queue: first-in first-out is demanded inside each level, whatever the others hold
     mixed = draw(st.integers(0, 2)) == 0
@@ -45,6 +45,27 @@ def fifo_case(draw, broker):
             for _ in range(k):
                 ops += [dict(consume), {"op": "ack", "c": 0, "i": 0}]
         for _ in range(20):
+            ops += [dict(consume), {"op": "ack", "c": 0, "i": 0}]
+    elif mode == "pause":
+        # consumption is paused and resumed while messages wait (some of them already prefetched by the consumer)
+        n = draw(st.integers(4, 20))
+        enq(n)
+        ops.append(start)
+        total = n
+        k = draw(st.integers(0, 3))
+        for _ in range(k):
+            ops += [dict(consume), {"op": "ack", "c": 0, "i": 0}]
+        for _ in range(draw(st.integers(1, 2))):
+            ops.append({"op": "pause", "c": 0})
+            if draw(st.booleans()):
+                extra = draw(st.integers(1, 3))
+                enq(extra)
+                total += extra
+            ops.append({"op": "advance", "dt": draw(st.sampled_from([0.01, 0.3, 1.2]))})
+            ops.append({"op": "unpause", "c": 0})
+            for _ in range(draw(st.integers(0, 2))):
+                ops += [dict(consume), {"op": "ack", "c": 0, "i": 0}]
+        for _ in range(total + 3):
             ops += [dict(consume), {"op": "ack", "c": 0, "i": 0}]
     elif mode == "foreign-run":
         # a run of foreign-topic messages at the old end that fills (at least) one fetch window, matching ones behind it,
